@@ -47,12 +47,16 @@ type c11Node struct {
 	Post  string    `json:"post,omitempty"` // "" | plain | stream
 	Body  []c11Op   `json:"body,omitempty"`
 	Sub   *c11Graph `json:"sub,omitempty"` // the node is a nested graph
+	Rerun bool      `json:"rerun,omitempty"` // resume family: the body returns InterruptAndRerun the first time
+	Role  string    `json:"role,omitempty"`  // eager family: holder | witness | late (barrier roles)
 }
 
 type c11Graph struct {
 	Mode     string    `json:"mode"` // pregel | dag | workflow
 	Stateful bool      `json:"stateful"`
 	Nodes    []c11Node `json:"nodes"` // topological order; the last node feeds END
+	Before   []string  `json:"before,omitempty"` // resume family: interrupt options of this graph level
+	After    []string  `json:"after,omitempty"`
 }
 
 type c11Interrupt struct {
@@ -65,7 +69,7 @@ type c11Interrupt struct {
 }
 
 type c11Case struct {
-	Kind      string        `json:"kind"` // graph | misuse
+	Kind      string        `json:"kind"` // graph | misuse | resume | eager
 	G         c11Graph      `json:"g"`
 	Ctrs      int           `json:"ctrs"`
 	Paradigm  string        `json:"paradigm"` // invoke | stream
@@ -73,6 +77,9 @@ type c11Case struct {
 	Interrupt *c11Interrupt `json:"interrupt,omitempty"`
 	Micro     uint64        `json:"micro,omitempty"`
 	Misuse    string        `json:"misuse,omitempty"`
+	Mods      []int         `json:"mods,omitempty"`    // resume/eager family: per resume, 0 = without a state modifier, D = with
+	Wrapped   bool          `json:"wrapped,omitempty"` // eager family: the Workflow is a graph node of a stateless parent
+	IntKind   string        `json:"intKind,omitempty"` // eager family: before | after | rerun
 }
 
 // ---------- observations (child → parent) ----------
@@ -89,6 +96,7 @@ type c11NodeObs struct {
 	PreN     int     `json:"preN,omitempty"`     // how often each stage ran
 	BodyN    int     `json:"bodyN,omitempty"`
 	PostN    int     `json:"postN,omitempty"`
+	RerunN   int     `json:"rerunN,omitempty"`
 	Err      string  `json:"err,omitempty"`
 }
 
@@ -111,6 +119,9 @@ type c11RunObs struct {
 	IntAfter   []string               `json:"intAfter,omitempty"`
 	IntStateID int                    `json:"intStateID"`
 	Nodes      map[string]*c11NodeObs `json:"nodes"`
+	Ints       []c11IntObs            `json:"ints,omitempty"`     // resume family: every interrupt of the run
+	Overlaps   int                    `json:"overlaps,omitempty"` // eager family: state operations that started while another one was inside
+	Barrier    string                 `json:"barrier,omitempty"`  // eager family: how the forced schedule went
 }
 
 type c11CaseObs struct {
@@ -118,6 +129,7 @@ type c11CaseObs struct {
 	BuildErr string      `json:"buildErr,omitempty"`
 	Runs     []c11RunObs `json:"runs"`
 	Misuse   string      `json:"misuse,omitempty"` // outcome class of a misuse case
+	Ref      *c11RunObs  `json:"ref,omitempty"`    // resume family: the uninterrupted reference run
 }
 
 // ---------- static structure shared by parent and child ----------
@@ -1068,7 +1080,11 @@ func c11Batch(ctx *vh.Ctx, cases []*c11Case, tag string) error {
 			}
 			continue
 		}
-		c11Account(ctx, c)
+		if c.Kind == "resume" || c.Kind == "eager" {
+			c11ResumeAccount(ctx, c)
+		} else {
+			c11Account(ctx, c)
+		}
 		for _, rep := range races[i] {
 			site := c11RaceSite(rep)
 			if len(rep) > 4000 {
@@ -1086,7 +1102,16 @@ func c11Batch(ctx *vh.Ctx, cases []*c11Case, tag string) error {
 			}
 			continue
 		}
-		if err := c11Compare(ctx, c, o); err != nil {
+		var err error
+		switch c.Kind {
+		case "resume":
+			err = c11ResumeCompare(ctx, c, o)
+		case "eager":
+			err = c11EagerCompare(ctx, c, o)
+		default:
+			err = c11Compare(ctx, c, o)
+		}
+		if err != nil {
 			return err
 		}
 	}
